@@ -35,6 +35,8 @@ def proj(st):
     # variable while it exists, and the public view gen.value() of the item the body is parked at
     pay = st["pay"]
     d["cp"] = pay["cp"]
+    # the other generators replaced by object-level operations: RAII local constructed / destroyed, live parameters
+    d["aux"] = {"ctor": pay["octor"], "dtor": pay["odtor"], "par": 0}
     d["aops"] = 0
     body_var = st["bst"] in ("yield", "await")
     d["var"] = {"id": pay["var"] if body_var else 0, "m": pay["moved"] if body_var else False}
@@ -198,6 +200,18 @@ def run(ctx):
         ("Generator_arg.cfg", "payload_arg", True, ["native", "coro", "cb"],
          {"BodyKinds": PAYK_ARG, "EarlyDestroy": "FALSE", "MaxAfterEnd": 0, "MaxAcc": 3},
          dict(pay_thorough, BodyKinds=PAYK_ARG)),
+        # operations on the generator OBJECT between accesses: move construction, move assignment onto an empty / never
+        # started / parked / finished target, swap, destruction of the moved-from object, consumption through the new object
+        ("Generator_noarg.cfg", "objops", False, ["native", "coro", "cb"],
+         {"BodyKinds": '{"yield", "return"}', "Styles": '{"sync", "future", "coawait", "begin", "inc"}', "MaxBody": 3, "MaxAcc": 3,
+          "MaxObj": 2, "EarlyDestroy": "FALSE", "MaxAfterEnd": 1},
+         {"BodyKinds": '{"yield", "apend", "throw", "return"}', "MaxBody": 4, "MaxAcc": 3, "MaxObj": 2, "EarlyDestroy": "FALSE",
+          "MaxAfterEnd": 1}),
+        ("Generator_arg.cfg", "objops_arg", True, ["native", "coro", "cb"],
+         {"BodyKinds": '{"ynull", "yield", "return"}', "MaxBody": 3, "MaxAcc": 3, "MaxObj": 1, "EarlyDestroy": "FALSE",
+          "MaxAfterEnd": 1},
+         {"BodyKinds": '{"ynull", "yield", "apend", "return"}', "MaxBody": 4, "MaxAcc": 3, "MaxObj": 2, "EarlyDestroy": "FALSE",
+          "MaxAfterEnd": 1}),
         ("Generator_thr.cfg", "thr", False, ["thr_late", "thr_early"], {},
          {"MaxAcc": 4, "MaxAfterEnd": 2}),
         ("Generator_thr.cfg", "thrarg", True, ["thr_late", "thr_early"],
@@ -211,6 +225,8 @@ def run(ctx):
         consts = {k: str(v) for k, v in consts.items()}
         pay = tag.startswith("payload")
         must = [a for a in COMMON + ASYNC if a != "ExternalResolve" or "apend" in consts.get("BodyKinds", "apend")]
+        if tag.startswith("objops"):
+            must = must + ["ObjOp"]
         cap = 6000 if (pay and q) else None
 
         def hdr(k, st0, witharg=witharg, modes=modes):
